@@ -1,6 +1,10 @@
 package verifh
 
 import (
+	"syscall"
+
+	"github.com/spf13/afero"
+
 	"net"
 	"net/netip"
 	"strings"
@@ -255,6 +259,46 @@ func TestC15(t *testing.T) {
 			frontier = next
 		}
 		r.ExtraAdd(sprintf("states_N%d_wl%v", cfg.N, cfg.wl != nil), int64(len(seen)))
+	}
+	// a connection whose state cannot be closed cleanly (every filesystem Close fails) must still give its slot back
+	for _, N := range []int{1, 2} {
+		if !r.Mine(100 + N) {
+			continue
+		}
+		var why string
+		synctest.Test(t, func(t *testing.T) {
+			leaf := newVFs(afero.NewOsFs(), "leaf")
+			leaf.record = false
+			leaf.Hook = func(e FsEvent) *FsFault {
+				if e.Op == "Close" {
+					return &FsFault{Err: syscall.EIO}
+				}
+				return nil
+			}
+			s := startSrv(SrvOpts{Root: w.Root, LnWrap: c15Wrap(N, wl), LeafWrap: func(afero.Fs) afero.Fs { return leaf }})
+			for k := 0; k < 2*N+1 && why == ""; k++ {
+				c := s.Dial(&net.TCPAddr{IP: net.IPv4(127, 0, 0, 1), Port: 52000 + k})
+				resp, closed := s.Exchange(c, mkReq(opOpenDir, "/").Encode())
+				if len(resp) != 4 || closed {
+					why = sprintf("client %d of a sequence of leaving clients (limit %d, every handle Close fails) was not served: %d bytes, closed=%v", k, N, len(resp), closed)
+					break
+				}
+				s.Exchange(c, mkReq(opOpenFile, "/a.txt").Encode())
+				c.Fin()
+				synctest.Wait()
+				if !c.ServerClosed() {
+					why = sprintf("client %d left but the server did not close its connection (state close failed)", k)
+				}
+			}
+			s.Shutdown()
+		})
+		r.Transition(int64(2*N + 1))
+		r.State(sprintf("close-fault N=%d", N))
+		if why != "" {
+			r.Violation("C15:slot-lost-on-close-error", why, map[string]any{"N": N})
+		} else {
+			r.Outcome("close-fault-recovers")
+		}
 	}
 	// whitelist spec x source address grid
 	specs := []string{"127.0.0.5", "127.0.0.5-127.0.0.9", "127.0.0.5-127.0.0.5", "127.0.0.0/8", "127.0.0.0/24", "127.0.0.77/24", "127.0.0.4/30", "127.0.0.4/31", "127.0.0.4/32",
